@@ -8,6 +8,7 @@
 #include <vata/serialization/timbuk_serializer.hh>
 #include "refmodel.hh"
 #include "common.hh"
+#include <sys/wait.h>
 
 namespace vu {
 using namespace VATA;
@@ -129,5 +130,23 @@ inline std::string canon(const RFA& a)
 	os << "}"; return os.str();
 }
 inline std::string canon(const Alpha& al) { std::ostringstream os; os << "Σ["; for (int r : al.rank) os << r << ","; os << "]"; return os.str(); }
+
+// ---------------------------------------------------------------- the command-line tool
+// `vata` built from the same tree in the same variant (cli/ is part of the ninja graph)
+inline std::string vataPath()
+{
+	char buf[4096]; ssize_t n = readlink("/proc/self/exe", buf, sizeof buf - 1); if (n <= 0) return "vata";
+	buf[n] = 0; std::string p(buf); size_t sl = p.rfind('/'); return p.substr(0, sl) + "/cli/vata";
+}
+// runs `vata <args>`, returns its standard output (stderr appended); rc = exit status
+inline std::string runVata(const std::string& args, int& rc)
+{
+	std::string cmd = vataPath() + " " + args + " 2>&1"; std::string out; char buf[4096];
+	FILE* f = popen(cmd.c_str(), "r"); if (!f) { rc = -1; return ""; }
+	size_t n; while ((n = fread(buf, 1, sizeof buf, f)) > 0) out.append(buf, n);
+	int st = pclose(f); rc = WIFEXITED(st) ? WEXITSTATUS(st) : 128 + WTERMSIG(st);
+	return out;
+}
+inline void writeFile(const std::string& path, const std::string& text) { FILE* f = fopen(path.c_str(), "w"); if (f) { fwrite(text.data(), 1, text.size(), f); fclose(f); } }
 
 } // namespace vu
